@@ -172,6 +172,10 @@ class History:
     def op_add(self, k, user):
         d = self.docs[k]
         w = self.rng.choice(WORDS)
+        # what a user does: the word added is mostly one that is flagged in this very document
+        present = [x for x in WORDS if x in (d.get("client_text") or "") and x not in self.user_words and x not in self.file_words.get(k, [])]
+        if present and self.rng.random() < 0.7:
+            w = self.rng.choice(present)
         self.trace.append({"op": "HarperAddToUserDict" if user else "HarperAddToFileDict", "doc": k, "word": w})
         n = self.server.n_publishes(d["uri"])
         self.server.command("HarperAddToUserDict" if user else "HarperAddToFileDict", [w, d["uri"]])
